@@ -11,8 +11,11 @@ From Coq Require Import List ZArith Bool.
 Import ListNotations.
 Local Open Scope Z_scope.
 
-(* certValidity, clockSkewAllowance, and the literal bound in verifyRawCerts *)
-Record params := mkParams { pV : Z; pS : Z; pMaxLife : Z }.
+(* certValidity, clockSkewAllowance, the literal bound in verifyRawCerts, and
+   which RSA test verifyRawCerts performs: 0 = the six PKCS#1 v1.5
+   SignatureAlgorithm values only (the pinned tree), 1 = also RSA-PSS and an RSA
+   public key (fixes/C18-verifier-rsa-detection.diff) *)
+Record params := mkParams { pV : Z; pS : Z; pMaxLife : Z; pRsaRule : Z }.
 
 (* validityMinusTwoSkew *)
 Definition pP (p : params) : Z := pV p - 2 * pS p.
@@ -129,6 +132,12 @@ Record xcert := mkX {
   x_na : Z           (* NotAfter - now *)
 }.
 
+Definition is_rsa (c : xcert) : bool := x_pubrsa c || (x_sig c =? 1) || (x_sig c =? 2).
+
+(* the code's "cert uses RSA" test *)
+Definition rsa_test (p : params) (c : xcert) : bool :=
+  if pRsaRule p =? 0 then x_sig c =? 1 else is_rsa c.
+
 Definition SHA2_256 : Z := 18.   (* multihash.SHA2_256 = 0x12 *)
 
 Definition mh_eqb (a b : Z * Z) : bool := (fst a =? fst b) && (snd a =? snd b).
@@ -142,7 +151,7 @@ Definition verify_raw_certs (p : params) (chain : list xcert) (hashes : list (Z 
   | leaf :: _ =>       (* rawCerts[len(rawCerts)-1] *)
       if existsb (fun h => (fst h =? SHA2_256) && (snd h =? x_hash leaf)) hashes then
         if negb (x_parse leaf) then VParse
-        else if x_sig leaf =? 1 then VRsa
+        else if rsa_test p leaf then VRsa
         else if pMaxLife p <? x_na leaf - x_nb leaf then VTooLong
         else if (0 <? x_nb leaf) || (x_na leaf <? 0) then VNotValid
         else VOk
